@@ -68,7 +68,20 @@ var sizeSpecials = []int{1, 2, 3, 255, 256, 511, 512, 1023, 1024, 2047, 2048, 40
 
 // ICCSize draws a payload size, boundary biased, up to max.
 func ICCSize(t *rapid.T, label string, max int) int {
-	switch rapid.IntRange(0, 5).Draw(t, label+"class") {
+	switch rapid.IntRange(0, 6).Draw(t, label+"class") {
+	case 6:
+		// a payload that ends within 4 bytes of a multiple of 4096 in the file when it starts right after a fixed
+		// header: WebP ICCP (payload at offset 38), a JPEG chunk in the first APP2 segment (offset 20), PNG
+		// (compressed, so only roughly)
+		k := rapid.IntRange(1, 4).Draw(t, label+"blk")
+		v := 4096*k - rapid.SampledFrom([]int{38, 20, 0}).Draw(t, label+"hdr") + rapid.IntRange(-4, 4).Draw(t, label+"bd")
+		if v > max {
+			v = max
+		}
+		if v < 1 {
+			v = 1
+		}
+		return v
 	case 0:
 		return rapid.IntRange(1, 600).Draw(t, label)
 	case 1, 2:
